@@ -156,7 +156,8 @@ Fixpoint nonincreasing_b (l : scored) : bool :=
   | x :: r => forallb (fun y => Qle_bool (skey y) (skey x)) r && nonincreasing_b r
   end.
 Definition scorable (cand : list Z) (scores : scored) : scored :=
-  filter (fun p => memZ (fst p) cand && has_score p) scores.
+  (* `if`, not `&&`: under call-by-value evaluation the long candidate list is searched for scored rows only *)
+  filter (fun p => if has_score p then memZ (fst p) cand else false) scores.
 Definition want_len (n : Z) (m : nat) : nat := if n <? 0 then m else Nat.min (Z.to_nat n) m.
 
 Definition rec_ok_b (cand : list Z) (scores : scored) (n : Z) (out : scored) : bool :=
@@ -256,3 +257,29 @@ Definition agree_front_after (evs : list event) (i : qinput) (supplied : option 
   | Some ds => agree_front ds i supplied o_hist o_cand o_scored_ids
   | None => false
   end.
+
+(* ---- several pipeline objects alive in one process ----
+   Objects are numbered; a process history says which object each event happened to (building and training
+   other standard pipelines, asking them, in any interleaving).  Every component instance belongs to ONE
+   pipeline object, so what an object holds is decided by its own events only. *)
+Definition wevent := (nat * event)%type.
+Definition own (k : nat) (w : list wevent) : list event :=
+  map snd (filter (fun e => Nat.eqb (fst e) k) w).
+Definition after_in (k : nat) (w : list wevent) : pstate := after (own k w).
+Definition rec_in (sc : scorer) (k : nat) (w : list wevent) (i : qinput) (supplied : option (list Z))
+    (config_n run_n : pyv) : option (result (scored * bool)) :=
+  rec_after sc (own k w) i supplied config_n run_n.
+Definition pred_in (sc : scorer) (fb : option scorer) (k : nat) (w : list wevent) (i : qinput)
+    (supplied : option (list Z)) : option ilist :=
+  pred_after sc fb (own k w) i supplied.
+(* a train() of object k: the only kind of event of `post` that may change what object k answers *)
+Definition trains (k : nat) (e : wevent) : bool := Nat.eqb (fst e) k && negb (is_ask (snd e)).
+(* correspondence: the observed front of a run of object k made after the process history w *)
+Definition agree_front_in (k : nat) (w : list wevent) (i : qinput) (supplied : option (list Z))
+    (o_hist : option (option (list Z))) (o_cand : list Z) (o_scored_ids : list Z) : bool :=
+  agree_front_after (own k w) i supplied o_hist o_cand o_scored_ids.
+
+(* ---- compact literals for the catalogue-size correspondence cases (reading a 10^4-element list literal costs seconds) ---- *)
+Fixpoint zrange_from (k : nat) (lo : Z) : list Z := match k with O => [] | S k' => lo :: zrange_from k' (lo + 1) end.
+Definition zrange (lo n : Z) : list Z := zrange_from (Z.to_nat n) lo.                             (* lo, lo+1, ..., lo+n-1 *)
+Definition nones (k : Z) : list (option Q) := repeat None (Z.to_nat k).                            (* k missing scores *)
